@@ -61,6 +61,9 @@ WC_CASES = [
      'behaviour': {'rets': {}, 'preds': {'p': [True, True, True], 'q': [False, False, True]}}},
     {'outline': [['if', [['p', [['step', 'a'], ['step', 'b']]], ['q', [['step', 'c']]]], [['step', 'd']]], ['step', 'a']],
      'behaviour': {'rets': {'a': [None, 3]}, 'preds': {'p': [False], 'q': [True]}}},
+    # ... a chain class that keeps the outline position under a bundle key of its own
+    {'outline': [['step', 'a'], ['while', 'p', [['step', 'b'], ['step', 'c']]], ['step', 'd']],
+     'behaviour': {'rets': {}, 'preds': {'p': [True, True, False]}, 'bodies': {'b': [['out', 'o.b', 1]]}, 'stepper_key': 'pv_outline_position'}},
 ]
 MEDIA = ('pickle', 'copy', 'yaml')
 
